@@ -1277,6 +1277,10 @@ class TransformSet:
             to_instrument=captures,
             set_conformer=self.set_conformer,
         )
+        # This function object is ptera's own: it must not be mistaken for
+        # the user's function when resolving a reference to the code it
+        # shares with it while installed
+        transformed.__ptera_discard__ = True
         return self._register(captures, transformed)
 
 
